@@ -32,7 +32,14 @@ def _bases():
     mid = trimesh.creation.box().apply_translation([0, 5, 0])
     three = trimesh.util.concatenate([big, mid, small])
     two = trimesh.util.concatenate([tet.copy(), tet.copy().apply_translation([5, 0, 0])])
-    return {"tet": tet, "box": box, "ico": ico, "torus": torus, "three": three, "two": two}
+    # two boxes stacked face to face, vertices not merged: different edges share midpoints
+    stacked = trimesh.util.concatenate([trimesh.creation.box(), trimesh.creation.box().apply_translation([0, 0, 1])])
+    stacked = trimesh.Trimesh(np.array(stacked.vertices), np.array(stacked.faces), process=False)
+    # the same shapes in another unit of length
+    ico_small = trimesh.creation.icosphere(subdivisions=1, radius=1e-4)
+    box_big = trimesh.creation.box(extents=[1e3, 2e3, 1e3])
+    return {"tet": tet, "box": box, "ico": ico, "torus": torus, "three": three, "two": two, "stacked": stacked,
+            "ico_small": ico_small, "box_big": box_big}
 
 
 _B = None
@@ -56,6 +63,12 @@ def cases(ctx):
         for k in range(1, len(comps) + 1):
             for sel in itertools.combinations(range(len(comps)), k):
                 yield {"kind": "fix_normals", "base": name, "flip": sorted(i for s in sel for i in comps[s]), "cache": False}
+    for name in ("ico_small", "box_big"):
+        n = len(B[name].faces)
+        for rem in [(0,), (5,), (0, 1), (7, 8)]:
+            yield {"kind": "fill_holes", "base": name, "remove": list(rem)}
+    yield {"kind": "subdivide", "base": "stacked", "iterations": 1}
+    yield {"kind": "subdivide", "base": "stacked", "iterations": 2}
     for name in ("tet", "box", "ico"):
         n = len(B[name].faces)
         pairs = list(itertools.combinations(range(n), 2))
@@ -130,7 +143,10 @@ def run_case(c):
         o.update({"verts_kept": bool(np.allclose(np.array(s.vertices)[:len(base.vertices)], base.vertices)) if k == "subdivide" else True,
                   "area": float(s.area), "volume": float(s.volume), "watertight": bool(s.is_watertight),
                   "winding": bool(s.is_winding_consistent), "euler": int(s.euler_number), "nfaces": len(s.faces),
-                  "expect_faces": len(base.faces) * 4 ** c["iterations"]})
+                  "expect_faces": len(base.faces) * 4 ** c["iterations"],
+                  "bodies": int(s.body_count), "base_bodies": int(base.body_count),
+                  "nverts": len(s.vertices),
+                  "expect_verts": (len(base.vertices) + len(base.edges_unique)) if c["iterations"] == 1 and k == "subdivide" else None})
     elif k == "subdivide_subset":
         s = base.subdivide(face_index=np.array(c["faces"]))
         o.update({"verts_kept": bool(np.allclose(np.array(s.vertices)[:len(base.vertices)], base.vertices)),
@@ -170,26 +186,29 @@ def oracle(c, o):
         if in_scope:
             # a missing triangle is refilled by itself (same volume); a non-planar quad can be closed by either
             # diagonal, so only validity is required there
-            same_volume = abs(o["volume"] - o["base_volume"]) < 1e-9 if len(c["remove"]) == 1 else o["volume"] > 0
+            same_volume = abs(o["volume"] - o["base_volume"]) < 1e-9 * max(1.0, abs(o["base_volume"])) if len(c["remove"]) == 1 else o["volume"] > 0
             if not (o["watertight"] and o["winding"] and same_volume):
                 return bad("hole-not-closed-with-correctly-wound-faces", removed=len(c["remove"]),
                            hole_vertices=o["hole_vertices"], base_faces=o["base_nfaces"])
     elif k in ("subdivide", "loop"):
         if not (o["watertight"] and o["winding"] and o["euler"] == o["base_euler"] and o["nfaces"] == o["expect_faces"]):
             return bad("validity-or-euler-number-changed")
+        if o.get("bodies") != o.get("base_bodies") or (o.get("expect_verts") is not None and o["nverts"] != o["expect_verts"]):
+            return bad("bodies-welded-or-vertex-count-wrong")
         if k == "subdivide":
             if not o["verts_kept"]:
                 return bad("original-vertices-not-kept")
-            if abs(o["area"] - o["base_area"]) > 1e-9 or abs(o["volume"] - o["base_volume"]) > 1e-9:
+            if abs(o["area"] - o["base_area"]) > 1e-9 * max(1.0, o["base_area"]) or \
+                    abs(o["volume"] - o["base_volume"]) > 1e-9 * max(1.0, abs(o["base_volume"])):
                 return bad("area-or-volume-changed")
     elif k == "subdivide_subset":
-        if not o["verts_kept"] or abs(o["area"] - o["base_area"]) > 1e-9 or o["nfaces"] != o["expect_faces"]:
+        if not o["verts_kept"] or abs(o["area"] - o["base_area"]) > 1e-9 * max(1.0, o["base_area"]) or o["nfaces"] != o["expect_faces"]:
             return bad("subset-subdivision-changed-the-surface")
     elif k == "to_size":
         if not o["raised"]:
             if o["max_edge"] > o["bound"] * (1 + 1e-12):
                 return bad("edge-longer-than-bound", factor=c["factor"])
-            if abs(o["area"] - o["base_area"]) > 1e-9:
+            if abs(o["area"] - o["base_area"]) > 1e-9 * max(1.0, o["base_area"]):
                 return bad("area-changed")
     return None
 
